@@ -32,6 +32,9 @@ OBLIGATIONS = [
     "C14_rejects", "C14_rejects_never_accepted",
     "C14_roundtrip_partial", "C14_roundtrip_order_refuted", "C14_roundtrip_collision_refuted", "C14_roundtrip_covariate_refuted",
     "C14_categorical_lost_individual_refuted", "C14_event_indicator_nan_refuted", "C14_categorical_id_refuted",
+    # source-level tie (T1): the decision table regenerated from the readers' source
+    "C14_src_table", "C14_src_is_model", "C14_src_rejects", "C14_src_rejects_never_accepted",
+    "C14_src_rejects_event_before_max_age", "C14_src_row_order_invariant_data",
 ]
 
 NAN = float("nan")
